@@ -1821,7 +1821,9 @@ val exts_text : ext_cst list -> n list
 
 val seg_kw_g : nat -> n list -> nat -> n list -> n list
 
-val ext_den : ext_cst -> ustr * ustr list
+val ext_upd : (ustr * ustr list) list -> ext_cst -> (ustr * ustr list) list
+
+val exts_den : ext_cst list -> (ustr * ustr list) list
 
 type 'a part = ((nat * nat) * 'a) option
 
